@@ -1128,11 +1128,15 @@ def check(prop, tier, replay=None):
 
 
 def honest_case(line):
-    """no lying == (adv = 0) and no injected == fault: the n-th comparison is an internal position, whereas the Drop of a
+    """no counter-keyed lying == and no injected == fault: the n-th comparison is an internal position, whereas the Drop of a
     given object, the n-th Clone and the n-th closure / source call are user-visible panic points of the property's
     own quantifier ("every panic point in user code")"""
     t = line.split(" ; ")[0].split()
-    return len(t) >= 4 and t[0] == "0" and t[2] in ("0", "2", "3", "4")
+    if len(t) < 4 or t[2] not in ("0", "2", "3", "4"):
+        return False
+    # the operand-determined asymmetric == (adv = 1, seed mod 5 = 3) does not depend on any counter either: a
+    # difference under it is a difference in WHICH comparison the crate made, i.e. a failing input
+    return t[0] == "0" or (t[0] == "1" and int(t[1]) % 5 == 3)
 
 
 def strip_internal(lines):
